@@ -17,14 +17,14 @@ PROPS = {
  "C03": {"level": "other", "lean_module": "ClipVerif.Props.C03", "stages": [MOD, S("c03-search")]},
  "C04": {"level": "other", "lean_module": "ClipVerif.Props.C04", "stages": [GEN, MOD, S("c04-search")]},
  "C05": {"level": "other", "lean_module": "ClipVerif.Props.C05", "stages": [MOD, S("c05-search")]},
- "C06": {"level": "other", "lean_module": "ClipVerif.Props.C06", "stages": [GEN, S("c06-search")]},
+ "C06": {"level": "other", "lean_module": "ClipVerif.Props.C06", "stages": [GEN, MOD, S("c06-search")]},
  "C07": {"level": "other", "lean_module": "ClipVerif.Props.C07", "stages": [GEN, S("c07-search")]},
  "C08": {"level": "other", "lean_module": "ClipVerif.Props.C08", "stages": [MOD, S("c08-search")]},
  "C09": {"level": "other", "lean_module": "ClipVerif.Props.C09", "stages": [WIND, GEN, S("c09-search")]},
  "C10": {"level": "other", "lean_module": "ClipVerif.Props.C10", "stages": [MOD, S("c10-search")]},
- "C11": {"level": "other", "lean_module": "ClipVerif.Props.C11", "stages": [GEN, S("c11-search")]},
- "C12": {"level": "other", "lean_module": "ClipVerif.Props.C12", "stages": [S("c12-search")]},
- "C13": {"level": "other", "lean_module": "ClipVerif.Props.C13", "stages": [GEN, S("c13-search")]},
+ "C11": {"level": "other", "lean_module": "ClipVerif.Props.C11", "stages": [GEN, MOD, S("c11-search")]},
+ "C12": {"level": "other", "lean_module": "ClipVerif.Props.C12", "stages": [MOD, S("c12-search")]},
+ "C13": {"level": "other", "lean_module": "ClipVerif.Props.C13", "stages": [GEN, MOD, S("c13-search")]},
  "C14": {"level": "proof", "lean_module": "ClipVerif.Props.C14", "stages": [GEN, MOD, S("c14-search")]},
  "C15": {"level": "proof", "lean_module": "ClipVerif.Props.C15", "stages": [GEN, MOD, S("c15-search")]},
  "C16": {"level": "proof", "lean_module": "ClipVerif.Props.C16", "stages": [GEN, MOD, S("c16-search")]},
